@@ -614,9 +614,9 @@ class Fn:
         self.pending: list[str] = []
         self.ntmp = 0
         for out, ty in cfg["outputs"].items():
-            self.vars["out_" + out] = f"List {ty}"
+            self.vars["out:" + out] = f"List {ty}"
         for _path, (out, kt, vt) in (cfg.get("dict_outputs") or {}).items():
-            self.vars["out_" + out] = f"List ({kt} × {vt})"
+            self.vars["out:" + out] = f"List ({kt} × {vt})"
         # a parameter the function assigns to is a local variable initialised with the argument
         pyargs = {a.arg for a in node.args.args}
         self.assigned_params = [p for p, _ in cfg["params"] if p in pyargs and p in stored_names(node.body)]
@@ -1061,9 +1061,9 @@ class Fn:
         """the state-record field of a local variable: locals are alpha-renamed to `v0, v1, …` in the order of their
         first binding in the function body, so that renaming a local changes nothing in the generated definition
         (output columns keep their configured names; the original names are listed in `Py<Name>.source.txt`)"""
-        if name.startswith("out_"):
-            return name
-        return "v" + str([k for k in self.vars if not k.startswith("out_")].index(name))
+        if name.startswith("out:"):        # an output column (its key is not a Python identifier: no local can clash)
+            return "out_" + name[4:]
+        return "v" + str([k for k in self.vars if not k.startswith("out:")].index(name))
 
     def path_key(self, e):
         """`ast.unparse(e)` when `e` is a *path*: an expression whose value cannot change while the function runs
@@ -1795,10 +1795,10 @@ def translate(cfg) -> str:
         stmts = stmts + [ast.Return(value=None)]           # falling off the end
     fn = Fn(cfg, node)
     fn.block(list(stmts), set(), False, "  ")
-    seed = {k: v for k, v in fn.vars.items() if not k.startswith("out_")}
+    seed = {k: v for k, v in fn.vars.items() if not k.startswith("out:")}
     fn = Fn(cfg, node, seed_vars=seed)            # second pass with the variable types of the first
     body, _, kind = fn.block(list(stmts), set(), False, "  ")
-    if {k: v for k, v in fn.vars.items() if not k.startswith("out_")} != seed:
+    if {k: v for k, v in fn.vars.items() if not k.startswith("out:")} != seed:
         raise Untranslatable("the types of the local variables do not settle")
     if kind != "return":
         raise Untranslatable("a path reaches the end of the function without a return")
@@ -1844,7 +1844,7 @@ def translate(cfg) -> str:
         lines.append(f"  let s := {{ s with {fn.fld(pname)} := {pname} }}")
     lines.append(body)
     lines += ["", f"end Generated.Py.{cfg['name']}", ""]
-    names = "\n".join(f"  {fn.fld(v)} = {v} : {t}" for v, t in fn.vars.items() if not v.startswith("out_"))
+    names = "\n".join(f"  {fn.fld(v)} = {v} : {t}" for v, t in fn.vars.items() if not v.startswith("out:"))
     SIDE[cfg["name"]] = (f"{cfg['cls']}.{cfg['func']} ({cfg['file']}) as translated into Generated/Py{cfg['name']}.lean\n\n"
                          f"locals:\n{names or '  (none)'}\n\nsource:\n{textwrap.indent(ast.unparse(shown), '  ')}\n")
     return "\n".join(lines)
